@@ -174,6 +174,8 @@ def run(tier, seed, factor=1):
                          db=rnd.choice(["RuleDB", "RuleDBForgetStrategy", "RuleDBForest"]), seed=rnd.randrange(10**6), perc=rnd.choice([100, 20, 1]),
                          smallest=False, expand_verified=False))
     cfgs += [specrun.perm_config(rnd) for _ in range(max(16, len(cfgs) // 10))]  # paths whose backward maps do not commute
+    prnd = random.Random(seed * 6700417 + 8)
+    cfgs += [specrun.pad_config(prnd) for _ in range(max(16, len(cfgs) // 10))]  # equivalences whose non-empty child is not child 0
     # weighted statistics (an occurrence counts twice): parameter values larger than the size of the object
     wrnd = random.Random(seed * 7919 + 88)
     for _ in range(max(16, len(cfgs) // 10)):
